@@ -24,7 +24,9 @@ theorem runFile_fresh (fuel : Nat) (s : State) (prio now : Nat) (ticks : List (N
     cases r with
     | none =>
       simp only []
-      split <;> simp
+      split
+      · simp
+      · split <;> simp
     | some t =>
       simp only []
       split
@@ -33,11 +35,9 @@ theorem runFile_fresh (fuel : Nat) (s : State) (prio now : Nat) (ticks : List (N
         · simp
         · split
           · simp
-          · obtain ⟨b, e, he⟩ := encRead_fresh _ (startCur s' t).enc.closable
-              (canStop ‹FileDesc› && !s'.files.contains (startCur s' t).key)
-            have : (startCur s' t).enc = { sent := 0, stopped := false, closable := (startCur s' t).enc.closable } := rfl
-            rw [this, he]
-            simp
+          · split
+            · simp
+            · split <;> simp
 
 theorem runFile_no_hang (fuel : Nat) (s : State) (prio : Nat) (cur : Option Cur) (now : Nat)
     (ticks : List (Nat × Nat)) : (runFile (fuel + 2) s prio cur now ticks).2.2 ≠ Out.hang := by
@@ -53,8 +53,11 @@ theorem runFile_no_hang (fuel : Nat) (s : State) (prio : Nat) (cur : Option Cur)
       · split
         · simp
         · split
-          · exact runFile_fresh fuel _ prio now ticks
           · simp
+          · split
+            · simp only [Bool.false_eq_true, if_false]
+              exact runFile_fresh fuel _ prio now ticks
+            · simp
 
 theorem fdtGetNext_fresh (s : State) (now : Nat) (hs : s.fdtSess = none) (c : Cur)
     (hc : (fdtGetNext s now).fdtSess = some c) : c.enc = { sent := 0, stopped := false, closable := false } := by
@@ -195,6 +198,8 @@ theorem runFile_idle (fuel : Nat) (s : State) (prio now : Nat) (ticks : List (Na
   unfold runFile
   have : getNextFile s prio now ticks = (s, none) := by unfold getNextFile; rw [hq]; rfl
   simp only [this]
+  have ho : openFailed true s none = none := rfl
+  simp only [ho]
   split <;> rfl
 
 theorem readQueue_idle : ∀ k s q now ticks, s.queue = [] → (∀ cur ∈ q.slots, cur = none) →
